@@ -214,5 +214,29 @@ static void divzero(int op) {
     VASSERT(0, "x / 0 (or x % 0) was folded instead of diagnosed");
   }
 }
+// The one quotient the host cannot compute: INT64_MIN / -1 and INT64_MIN % -1 raise SIGFPE on x86-64 (idiv), so
+// the folder must not execute them (C13: the compiler never dies from a signal; C07: the value is the wrapped one).
+// Both operands are leaves over the NARROW domain (which contains INT64_MIN and -1) with any cast; this harness alone
+// is run WITH cbmc's signed-overflow check, whose "result of signed div/mod is not representable" property is exactly
+// the trap condition (the other harnesses switch that check off: wrapping host arithmetic inside eval2 is not C07's
+// subject).
+static void divtrap(int op) {
+  HAVOC_IN();
+  NARROW = true;
+  RV a = ref_leaf(&IN.t[R_NOPS].c[0].l[0]);
+  RV b = ref_leaf(&IN.t[R_NOPS].c[1].l[0]);
+  __CPROVER_assume(a.ok && b.ok && b.v != 0);
+  mul_bound(op, a, b);                       // divisor in [-MULB, MULB-1] (contains -1): the stated bound of * / % everywhere in this file
+  Node *x = node_leaf(&IN.t[R_NOPS].c[0].l[0]);
+  Node *z = node_leaf(&IN.t[R_NOPS].c[1].l[0]);
+  Node *rootn = new_binary(op == R_MOD ? ND_MOD : ND_DIV, x, z, NULL);
+  add_type(rootn);
+  int64_t got = eval(rootn);
+  RV want = r_binop(op, a, b);
+  if (want.ok) VASSERT(got == want.v, "folded quotient/remainder == C11 value (wrapped for INT64_MIN / -1), computed without trapping");
+  VCOVER();
+}
+void h_divtrap_div(void) { divtrap(R_DIV); }
+void h_divtrap_mod(void) { divtrap(R_MOD); }
 void h_divzero_div(void) { divzero(R_DIV); }
 void h_divzero_mod(void) { divzero(R_MOD); }
